@@ -50,6 +50,66 @@ type progGen struct {
 	nvar   int
 	nlabel int
 	stats  map[string]int
+	// compile configuration (a random dimension): source directory and cl.Config.RelativeBase
+	dir, relBase, cfgKind string
+}
+
+// configs: where the sources live and what RelativeBase is — equal, with a trailing slash, a parent,
+// a sibling directory whose name is a string prefix of the source directory, unrelated, the root,
+// empty (absolute names in the directives), and relative source directories.
+var configs = [][3]string{
+	{"/pkg", "/pkg", "equal"},
+	{"/pkg", "/pkg/", "equal-trailing-slash"},
+	{"/w/app/sub", "/w/app", "parent"},
+	{"/w/app/sub/deep", "/w/app/", "grandparent-trailing-slash"},
+	{"/w/app2", "/w/app", "sibling-common-prefix"},
+	{"/w/app-v2/cmd", "/w/app", "sibling-common-prefix-nested"},
+	{"/w/app", "/other/place", "unrelated"},
+	{"/w/app", "/", "root"},
+	{"/w/app", "", "empty-base"},
+	{"rel/pkg", "", "relative-dir-empty-base"},
+	{"rel/pkg", "rel", "relative-dir-parent"},
+	{"rel/pkg2", "rel/pkg", "relative-sibling-common-prefix"},
+}
+
+// relPath restates "path of file relative to base" component by component (independent of
+// path/filepath.Rel): "" base keeps the name; mixing absolute and relative keeps the name.
+func relPath(base, file string) string {
+	if base == "" {
+		return file
+	}
+	abs := func(s string) bool { return strings.HasPrefix(s, "/") }
+	if abs(base) != abs(file) {
+		return file
+	}
+	split := func(s string) []string {
+		var res []string
+		for _, c := range strings.Split(s, "/") {
+			if c != "" && c != "." {
+				res = append(res, c)
+			}
+		}
+		return res
+	}
+	b, f := split(base), split(file)
+	i := 0
+	for i < len(b) && i < len(f) && b[i] == f[i] {
+		i++
+	}
+	var parts []string
+	for j := i; j < len(b); j++ {
+		parts = append(parts, "..")
+	}
+	parts = append(parts, f[i:]...)
+	if len(parts) == 0 {
+		return "."
+	}
+	return strings.Join(parts, "/")
+}
+
+// directiveName: the file name a //line directive for the source file must carry.
+func (g *progGen) directiveName(file string) string {
+	return relPath(g.relBase, g.dir+"/"+file)
 }
 
 func (g *progGen) id(kind string, line int) int {
@@ -473,7 +533,7 @@ type E1 struct {
 	*E2
 	strings.Builder
 	*strings.Reader
-	tagged int `+"`"+`json:"t"`+"`"+`
+	tagged int ` + "`" + `json:"t"` + "`" + `
 }
 
 func (p *T0) id(a int) int {
@@ -490,6 +550,11 @@ var (
 // genProgram: main.xgo (prelude, functions, methods, top-level statements) + optionally a class file.
 func genProgram(r *vh.Rand, idx int) *progGen {
 	g := &progGen{r: r, stats: map[string]int{}}
+	cfg := configs[r.Intn(len(configs))]
+	if r.Chance(35) {
+		cfg = configs[0]
+	}
+	g.dir, g.relBase, g.cfgKind = cfg[0], cfg[1], cfg[2]
 	mainName := []string{"main.xgo", "prog_1.xgo", "a.b.xgo", "m.gop"}[r.Intn(4)]
 	main := &srcFile{name: mainName}
 	g.files = append(g.files, main)
@@ -582,6 +647,31 @@ func genProgram(r *vh.Rand, idx int) *progGen {
 		}
 		g.cur = main
 	}
+	// a class file that consists of statements only: its first statement is at BYTE 0 of the file
+	if r.Chance(40) {
+		cf := &srcFile{name: []string{"Only.gox", "Zz.gox", "Aa.gox"}[r.Intn(3)]}
+		cls := strings.TrimSuffix(cf.name, ".gox")
+		g.files = append(g.files, cf)
+		g.cur = cf
+		g.fn = cls + ".Main"
+		g.funcs = append(g.funcs, fnInfo{Name: cls + ".Main", File: cf.name, Line: 1})
+		cf.w("mark(%d)", g.id("script_first_byte", 1))
+		g.block(0, 1, 1+r.Intn(3))
+		g.cur = main
+		calls = append(calls, fmt.Sprintf("!(&%s{}).Main()", cls)) // no result
+		g.stats["file_script_class"]++
+	}
+	// files without any declaration
+	if r.Chance(25) {
+		g.files = append(g.files, &srcFile{name: "empty.xgo"})
+		g.stats["file_empty"]++
+	}
+	if r.Chance(25) {
+		cf := &srcFile{name: "doc_only.xgo"}
+		cf.w("// Only a comment.\n\n/* and a\n   block comment */")
+		g.files = append(g.files, cf)
+		g.stats["file_comment_only"]++
+	}
 	// top-level statements = body of the shadow entry main
 	g.fn = ""
 	g.funcs = append(g.funcs, fnInfo{Name: "main", File: mainName, Line: main.next()})
@@ -589,7 +679,11 @@ func genProgram(r *vh.Rand, idx int) *progGen {
 	main.w("mark(%d)", g.id("expr", L))
 	for _, c := range calls {
 		g.noise(0)
-		main.w("_ = %s", c)
+		if strings.HasPrefix(c, "!") {
+			main.w("%s", c[1:])
+		} else {
+			main.w("_ = %s", c)
+		}
 	}
 	g.block(0, 2, 2+r.Intn(4))
 	return g
@@ -599,6 +693,10 @@ func genXGoProgram(r *vh.Rand) map[string]string {
 	g := genProgram(r, 0)
 	res := map[string]string{}
 	for _, f := range g.files {
+		if len(f.lines) == 0 {
+			res[f.name] = ""
+			continue
+		}
 		res[f.name] = strings.Join(f.lines, "\n") + "\n"
 	}
 	return res
